@@ -194,7 +194,7 @@ fn any_byte(rng: &mut Rng) -> u8 {
     }
 }
 
-fn gen_msg(rng: &mut Rng, serial: bool, clean: bool, big_micros: bool, tier: u32) -> Item {
+fn gen_msg(rng: &mut Rng, serial: bool, clean: bool, big_micros: bool, tier: u32, huge: bool) -> Item {
     let sh = if serial {
         vec![]
     } else {
@@ -224,8 +224,8 @@ fn gen_msg(rng: &mut Rng, serial: bool, clean: bool, big_micros: bool, tier: u32
         0 => 0,
         1 => 1,
         2 => rng.below(300),
-        3 if tier > 0 => 65535 - hsize as u64 - rng.below(3),
-        4 if tier > 0 => rng.below(5000),
+        3 | 5 if huge => 65535 - hsize as u64 - rng.below(3),
+        4 if tier > 0 && rng.chance(10) => rng.below(5000),
         _ => rng.below(12),
     } as usize;
     let mut mcnt = rng.below(256) as u8;
@@ -264,6 +264,8 @@ fn gen_case(rng: &mut Rng, tier: u32) -> Case {
     let serial = rng.chance(3);
     let clean = !rng.chance(3); // two thirds in the property's range, one third malformed
     let big = !serial && rng.chance(10);
+    // maximum-size messages only in dedicated cases with short garbage (the list-based model is quadratic in garbage x size)
+    let huge = tier > 0 && rng.chance(250);
     let mut items = vec![];
     let nm = rng.below(5);
     for _ in 0..=nm {
@@ -272,7 +274,7 @@ fn gen_case(rng: &mut Rng, tier: u32) -> Case {
             1 => rng.below(4),
             2 => rng.below(30),
             3 => rng.below(71),
-            4 if tier > 0 && rng.chance(4) => 100 + rng.below(3000),
+            4 if tier > 0 && !huge && rng.chance(4) => 100 + rng.below(3000),
             _ => 0,
         } as usize;
         if g > 0 {
@@ -280,7 +282,7 @@ fn gen_case(rng: &mut Rng, tier: u32) -> Case {
         }
         if !rng.chance(10) {
             let ser_m = if !clean && rng.chance(12) { !serial } else { serial };
-            let mut it = gen_msg(rng, ser_m, clean, big, tier);
+            let mut it = gen_msg(rng, ser_m, clean, big, tier, huge);
             if !clean {
                 // malformed stream: corrupt some messages and present them as raw bytes
                 match rng.below(6) {
